@@ -388,7 +388,7 @@ def build_value(world, dom, name):
         obj.partial = True        # an attribute the heap model does not describe is unsupported, not an AttributeError
         if getattr(dom, 'evaluating', None) is not None:
             obj.fields['cell_map'] = HM.SCellMap(classes=True)
-            obj.fields['eval'] = Builtin('eval', HM.make_heap_eval(list(dom.evaluating)))
+            obj.fields['eval'] = Builtin('eval', HM.make_heap_eval(list(dom.evaluating), tuple(getattr(dom, 'eval_raises', ()))))
         if building:
             HM.declare_heap_set('graph_todos')
             obj.fields['graph_todos'] = HM.SNodeSet('graph_todos')
@@ -892,6 +892,10 @@ class Verifier:
                 typ, cond = list(c.raises.items())[k - 1]
                 pre = dict(HM.heap_of(interp.ex))
                 interp.ex.heap = HM.fresh_heap(interp.ex, 'raise')
+                if getattr(c, 'modifies', None) is not None:
+                    for f_ in pre:
+                        if f_ not in c.modifies:
+                            interp.ex.heap[f_] = pre[f_]      # outside the callee's frame, also when it raises
                 self.old_heaps.append(pre)
                 try:
                     if cond is not None:
